@@ -295,6 +295,12 @@ class FnEmitter:
             elif kind == "perm4":
                 params.append(f"({name} : perm4)")
                 self.permname = name
+            elif kind == "fun":
+                # (added by group `velocity`, additive) an ORACLE callable handed to the function
+                # (user callables of pydrex.pathlines, the eigenvalue oracle): `info` is its
+                # Gallina type; its applications are ordinary `call` events whose callee name is
+                # the parameter name.  Created only by translator/specs_velocity.py.
+                params.append(f"({name} : {info})")
             elif kind == "static":
                 doc.append(f"{name} = {_show_static(d['statics'][name])} (specialised)")
             elif kind == "oracle":
